@@ -283,7 +283,7 @@ pub fn program(data: &[u8]) -> (crate::props::c18::Program, Vec<u8>) {
   let threads = (0..nthreads)
     .map(|_| {
       (0..1 + c.below(3))
-        .map(|_| match c.below(14) {
+        .map(|_| match c.below(15) {
           0 | 1 => Op::Source,
           2 => Op::Size,
           3 | 4 => Op::Map(c.u8() % 2 == 0),
@@ -292,6 +292,7 @@ pub fn program(data: &[u8]) -> (crate::props::c18::Program, Vec<u8>) {
           9 => Op::CloneSource,
           10 => Op::CloneMap(c.u8() % 2 == 0),
           11 => Op::EqTwin,
+          14 => Op::CloneMutate,
           12 => Op::EqShared(c.u8() % 2 == 0),
           _ => Op::EqNear(c.u8() % 2 == 0),
         })
